@@ -17,7 +17,8 @@ RULE = ("Abstract feature trees (1-2 (quick) / 1-3 (thorough) items per containe
         "verdict is decided by exactly one mechanism, or passes although something is skipped/de-selected/pending-under-wip. "
         "A subset is re-run through behave.__main__.main() on real files and through `python -m behave` (exit code).")
 ASSUMPTIONS = ["a ModelRunner object whose run was aborted is not reused (it stays aborted); reuse after every other kind of run is covered",
-               "KeyboardInterrupt raised inside a hook is outside the quantifier and not injected",
+               "KeyboardInterrupt raised inside a hook (the run is aborted from a hook) is injected at every hook invocation of small programs and at the exit-code level: the run must not report success; the statuses of the interrupted elements are not compared",
+               "a run that cannot be set up (a step module or environment.py raises on import, a feature file does not parse) counts as 'something else raises': it must not report success; which non-zero code it uses is not compared",
                "exit-code mapping is checked on a subset (one program per outcome class), not on every run"]
 
 
@@ -73,6 +74,35 @@ def run_case(case):
     nt = (cls, digest(case)) if cls else None
     return {"v": v, "nt": nt, "out": (obs["verdict"], cls, case[1] if isinstance(case[1], str) else "cfg"),
             "dg": (obs["verdict"], obs["escaped"], sorted(obs["status"].items()))}
+
+
+# ---- the run is aborted from inside a hook (KeyboardInterrupt) -----------------------------------------------
+def interrupt_case(case):
+    """case = (prog, cfgkey, k): the k-th hook invocation is interrupted; the run must not report success (either
+    run() returns failed or the KeyboardInterrupt leaves it - before_all / after_all)"""
+    prog, cfg, k = case
+    obs = harness.run_case(prog, runcases.CFGS[cfg], faults={k: "kbi"}, hooks=True)
+    v = []
+    name = obs["hooks"][k][0] if k < len(obs["hooks"]) else "?"
+    if obs["escaped"]:
+        if obs["escaped"] != "KeyboardInterrupt":
+            v.append(({"subcheck": "interrupt", "clause": "other-exception-escapes", "exc": obs["escaped"], "hook": name},
+                      "interrupting %s #%d: run() raised %s" % (name, k, obs["escaped"])))
+    elif not obs["verdict"]:
+        v.append(({"subcheck": "interrupt", "clause": "false-green", "hook": name},
+                  "the run was interrupted in %s #%d but run() reports success" % (name, k)))
+    return {"v": v, "nt": ("kbi", digest(case)), "out": ("kbi", name, obs["verdict"], obs["escaped"]),
+            "dg": (obs["verdict"], obs["escaped"], obs["hooks"], sorted(obs["status"].items()))}
+
+
+def interrupt_cases(tier):
+    quick = tier == "quick"
+    shapes = [s_ for s_ in P.shapes(tier) if P.size(s_) <= (3 if quick else 5) and len(s_[3]) <= 2]
+    for shp in shapes:
+        for prog in ((shp, P.SECOND_FEATURE),):
+            for cfg in (("default",) if quick else ("default", "stop")):
+                for k in range(runcases.hook_count(prog, cfg)):
+                    yield (prog, cfg, k)
 
 
 # ---- a hook excludes a scenario whose steps would fail ------------------------------------------------------
@@ -239,6 +269,31 @@ ENV_PY = '''
 def %s(ctx, *args):
     raise RuntimeError("hook fault")
 '''
+# error paths OF error paths: the exception a hook raises cannot be described (behave formats it while handling it), or
+# is a KeyboardInterrupt (run aborted from a hook: not caught by run_hook); both leave the runner as exceptions
+ENV_KINDS = {
+    "exc": ENV_PY,
+    "strraises": '''
+class Undescribable(Exception):
+    def __str__(self):
+        raise ValueError("cannot describe myself")
+    __repr__ = __str__
+def %s(ctx, *args):
+    raise Undescribable("x")
+''',
+    "kbi": '''
+def %s(ctx, *args):
+    raise KeyboardInterrupt()
+''',
+}
+# the run cannot be set up at all: something other than a step / hook / cleanup raises ("nothing else raises" is the
+# condition for success)
+LOAD_FAULTS = {
+    "steps-import": ("features/steps/broken.py", "raise RuntimeError('broken step module')\n"),
+    "steps-syntax": ("features/steps/broken.py", "def f(:\n"),
+    "env-import": ("features/environment.py", "import module_that_does_not_exist_c01\n"),
+    "feature-syntax": ("features/zz.feature", "Feature: Z\n  Scenario: Z1\n    Given a step\n  Bogus line here\n    | x |\n"),
+}
 
 
 def main_exit_case(case):
@@ -254,9 +309,16 @@ def main_exit_case(case):
                 fh.write(P.render(f, fi)[0])
         with open(os.path.join(d, "features", "steps", "steps.py"), "w") as fh:
             fh.write(STEPS_PY)
-        if hookname:
+        kind = "exc"
+        if isinstance(hookname, tuple):
+            hookname, kind = hookname
+        if kind == "load":
+            rel, text = LOAD_FAULTS[hookname]
+            with open(os.path.join(d, rel), "w") as fh:
+                fh.write(text)
+        elif hookname:
             with open(os.path.join(d, "features", "environment.py"), "w") as fh:
-                fh.write(ENV_PY % hookname)
+                fh.write(ENV_KINDS[kind] % hookname)
         args = harness.config_args(cfgd) + ["-f", "null", "features"]
         faults = None
         ref = refrun.predict(prog, cfgd)
@@ -282,6 +344,10 @@ def main_exit_case(case):
                     rc = main(args)
                 except SystemExit as e:
                     rc = e.code
+                except KeyboardInterrupt:
+                    rc = 130        # an interpreter left by KeyboardInterrupt exits non-zero
+                except Exception as e:      # noqa - an interpreter left by an uncaught exception exits 1
+                    rc = 1
             finally:
                 sys.stdout, sys.stderr = old
                 os.chdir(cwd)
@@ -294,7 +360,9 @@ def main_exit_case(case):
         if bool(rc) != bool(want):
             v.append(({"subcheck": "exit-code", "clause": "false-green" if want else "false-red",
                        "entry": "child" if child else "main"},
-                      "exit code %r, expected %s for %r under %s (hook fault: %s)" % (rc, want, prog, cfg, hookname)))
+                      "exit code %r, expected %s for %r under %s (hook fault: %s, kind %s)" % (rc, want, prog, cfg, hookname, kind)))
+            if kind != "exc":
+                v[-1][0]["fault"] = kind if kind != "load" else "load:" + hookname
         return {"v": v, "nt": ("exit", digest(case)) if want else None, "out": ("exit", rc), "dg": rc}
     finally:
         os.chdir(cwd)
@@ -312,6 +380,16 @@ def exit_cases(tier):
             yield (pr, cfg, None, False)
     for h in ("before_all", "after_all", "before_feature", "after_scenario", "before_step", "before_rule"):
         yield ((base,), "default", h, False)
+    for h in ("before_all", "after_all", "before_feature", "before_scenario", "after_scenario", "after_step", "after_rule",
+              "after_feature"):
+        for kind in ("strraises", "kbi"):
+            yield ((base,), "default", (h, kind), False)
+    for lf in sorted(LOAD_FAULTS):
+        yield ((base,), "default", (lf, "load"), False)
+        yield ((base,), "dry", (lf, "load"), False)
+    yield ((base,), "default", ("after_all", "kbi"), True)
+    yield ((base,), "default", ("before_scenario", "strraises"), True)
+    yield ((base,), "default", ("feature-syntax", "load"), True)
     kids = [progs[0], progs[1], progs[4], progs[5]]
     for pr in (kids if tier == "quick" else progs[:14]):
         yield (pr, "default", None, True)
@@ -327,6 +405,8 @@ def run(ctx):
               name="exception classes around every except clause of Step.run, with and without @wip")
     ctx.sweep(run_case, runcases.combo_cases(ctx.tier), chunk=48,
               name="combinations of --stop / --dry-run / --wip / continue_after_failed_step / --tags")
+    ctx.sweep(interrupt_case, interrupt_cases(ctx.tier), chunk=32,
+              name="KeyboardInterrupt inside every hook invocation (run aborted from a hook)")
     ctx.sweep(hookskip_case, hookskip_cases(ctx.tier), chunk=32,
               name="a scenario whose first step would fail is excluded by its own before hook (skip())")
     ctx.sweep(reuse_case, reuse_cases(ctx.tier), chunk=16,
